@@ -235,7 +235,8 @@ namespace plan
       for (int i = 0, n = static_cast<int>(sw.range(1, 6)); i < n; ++i)
         ops.push_back(g_op(g, g.chance(1, 2) ? "r_rel" : "r_goal"));
     W w;
-    w.add("real", 3), w.add("bool", 2), w.add("rel", 14);
+    const bool timeline_focus = prop == "C19" || prop == "C04" || prop == "C05" || prop == "C06";
+    w.add("real", 3), w.add("bool", 2), w.add("rel", timeline_focus ? 4 : 14);
     if (logic)
       w.add("logic", 8), w.add("bassert", 3);
     if (objects)
